@@ -1,7 +1,7 @@
 (* C18 - Schwab conversion keeps every relevant row and emits valid DSL.  Statements only. *)
-From Coq Require Import ZArith NArith List Bool Ascii String Permutation.
+From Coq Require Import ZArith NArith List Bool Ascii String Permutation Lia.
 Require Import CGT.Model.Date CGT.Model.Dsl CGT.Model.Schwab CGT.Proofs.DslFacts CGT.Proofs.SchwabFacts CGT.Proofs.SchwabConserve CGT.Proofs.SchwabTax.
-Require Import CGT.Proofs.DslRound CGT.Proofs.SchwabValid.
+Require Import CGT.Proofs.DslRound CGT.Proofs.SchwabValid CGT.Proofs.SchwabValid2.
 From Coq Require Import QArith.
 Import ListNotations.
 
@@ -79,7 +79,8 @@ Print Assumptions C18_cancel_unmatched.
    reader model reads it back; comment lines and the empty header line are blank lines.  Hence, for every export the converter accepts, the output is a header
    followed by the lines of the emitted records, and whenever those records are well-formed (a real date in years 0..9999, a non-empty upper-case alphanumeric
    symbol, non-negative quantity and price, figures the decimal type holds - the clause's own premise) the whole text parses, to exactly the transactions the
-   records denote, in the output's order. PARTIAL in one respect: the premise is stated on the records the converter emits, not derived from the export's rows. *)
+   records denote, in the output's order.  C18_output_is_valid_dsl_partial states the premise on the emitted records; C18_output_is_valid_dsl below derives it from the
+   decoded export. *)
 Theorem C18_lines_are_the_writers : forall d sym q p e c a tax, s_neg q = false -> s_neg p = false -> s_neg a = false ->
   trade_line KW_BUY d sym q p e = print_txn {| x_date := d; x_tick := sym; x_op := DBuy (s_dec q) (usd p) (charge e) |} /\
   txn_of_cgt (CBuy d sym q p e c) = Some {| x_date := d; x_tick := sym; x_op := DBuy (s_dec q) (usd p) (charge e) |} /\
@@ -99,3 +100,27 @@ Print Assumptions C18_output_is_valid_dsl_partial.
 Example C18_valid_dsl_applies : exists o, convert 7 c18_rows None = Ok o /\
   exists ts, parse (fun _ => true) (join_lines (o_lines o)) = inr ts /\ ts <> [].
 Proof. eexists. split; [vm_compute; reflexivity|]. eexists. split; [vm_compute; reflexivity|discriminate]. Qed.
+
+(* The clause in full, from the decoded export.  For every export the converter accepts: if its trade rows (Buy, Sell, Cancel Sell), vest rows and dividend rows carry
+   real dates in years 0..9999, non-empty upper-case alphanumeric symbols, non-negative quantities and prices and figures the decimal type holds, the awards map (when an
+   awards file is given) holds non-negative representable values on real dates, and the day totals of withholding are representable, then the output text parses in the
+   reader model - to exactly the transactions the emitted records denote, in the output's order - and every emitted record is well-formed.  (USD and GBP must be codes the
+   currency table accepts.)  Chronological order of the output is C18_sort_conserves together with the model's comparator; the premises on decoded rows are what "alphanumeric
+   symbols and non-negative quantities and prices" means after decoding. *)
+Theorem C18_output_is_valid_dsl : forall valid_cur, wf_cur valid_cur USD -> wf_cur valid_cur GBP ->
+  forall lb rows aws o items,
+  decode_all rows = Ok items -> Forall item_ok items -> taxes_ok (collect_taxes items []) ->
+  (forall a m, aws = Some a -> build_awards a [] = Ok m -> amap_ok m) ->
+  convert lb rows aws = Ok o ->
+  exists records, Forall (cgt_ok valid_cur) records /\ parse valid_cur (join_lines (o_lines o)) = inr (flat_map denotes records).
+Proof. exact convert_valid. Qed.
+Print Assumptions C18_output_is_valid_dsl.
+
+(* non-vacuity: the example export above meets every premise (with a currency table that accepts every code) *)
+Example C18_valid_dsl_premises_hold : exists items, decode_all c18_rows = Ok items /\ Forall item_ok items /\ taxes_ok (collect_taxes items []) /\
+  wf_cur (fun _ => true) USD /\ wf_cur (fun _ => true) GBP.
+Proof.
+  eexists. split; [vm_compute; reflexivity|]. split; [|split; [constructor|]].
+  - repeat constructor; cbn; try reflexivity; try discriminate; try lia.
+  - split; eexists; eexists; eexists; (split; [reflexivity|]); repeat split; try reflexivity; discriminate.
+Qed.
